@@ -175,7 +175,7 @@ PROPS = {
                T("TestC08Big", Q(8, timeout=400, shrinktime="20s"), Q(40, timeout=1500, shards=6, shrinktime="60s"))],
         rule="Generated: saver history (0-6 Update calls), PrepareSnapshot, 0-3 further Update calls, SaveSnapshot; a receiver with its own unrelated history (0-4 calls, synced or not); recovery with saver and "
              "receiver formats drawn independently (snapshot/checkpoint, cross-format); one of: plain install, stop signal after k writer calls during save, stop signal after k reader calls during recover, "
-             "crash at EVERY file-system operation boundary inside RecoverFromSnapshot (crashfs, counted as separate evaluations), a lazy range sequence obtained before the install and consumed after it, "
+             "crash at EVERY file-system operation boundary inside RecoverFromSnapshot under two fault models - power loss (everything unsynced is dropped) and process death (everything done before the operation is kept, nothing after it happens) - (crashfs, counted as separate evaluations), a lazy range sequence obtained before the install and consumed after it, "
              "reader goroutines racing with the install. Oracle: receiver content/applied index/leader index == saver's model at prepare time; continuing with the post-prepare entries reaches the saver's state, also after reopen; "
              "stopped save => ErrSnapshotStopped and saver intact; stopped install => receiver == its pre-install model, also after reopen; crash inside install => exactly the installed state or a prefix (>= last sync) "
              "of the receiver's own log; overlapping reads: old state, new state or clean error, never a panic. Non-trivial iff writes between prepare and save AND (cross-format or interrupted), or a reader spanning the swap, "
